@@ -1,7 +1,7 @@
 (* Driver for the C12 model.  usage: modelrun_c12 run|decode < cases > results
 
    run: one case per line, operations separated by " | ":
-     S <h> <pid> <cb> <fresh> <spf|-> <pipefail> <forkfail> <execerr|-> <mask> ; <stdio> ; <table> ; <answers>
+     S <h> <pid> <cb> <fresh> <spf|-> <pipefail> <forkfail> <execerr|-> <mask> <uid r.e.s> <gid r.e.s> <setuid|-> <setgid|-> ; <stdio> ; <table> ; <answers>
         mask    hex, bit (sig-1) set = signal sig blocked on entry
         stdio   comma list of i | p | h<fd> | b        ("-" = none)
         table   comma list of <fd>=<file>/<cx>         ("-" = empty)
@@ -64,13 +64,18 @@ let parse_op (s : string) : op =
       (match String.split_on_char ';' (String.sub s 1 (String.length s - 1)) with
        | [hd; st; tb; an] ->
            (match split_on ' ' hd with
-            | [h; pid; cb; fresh; spf; pf; ff; ee; mk] ->
+            | [h; pid; cb; fresh; spf; pf; ff; ee; mk; uc; gc; su; sg] ->
+                let creds_ x = (match String.split_on_char '.' x with
+                  | [a; b; c] -> { c_r = nat_ a; c_e = nat_ b; c_s = nat_ c }
+                  | _ -> failwith ("bad creds " ^ x)) in
+                let optn x = if x = "-" then None else Some (nat_ x) in
                 let sp = { s_tbl = parse_table tb; s_stdio = parse_stdio st;
                            s_cb = (cb = "1"); s_pid = nat_ pid; s_fresh = nat_ fresh;
                            s_sp_fail = (if spf = "-" then None else Some (nat_ spf));
                            s_pipe_fail = (pf = "1"); s_fork_fail = (ff = "1");
                            s_exec_err = (if ee = "-" then None else Some (z_of_string ee));
-                           s_mask = mask_of_hex mk } in
+                           s_mask = mask_of_hex mk; s_uid = creds_ uc; s_gid = creds_ gc;
+                           s_setuid = optn su; s_setgid = optn sg } in
                 OSpawn (nat_ h, sp, parse_answers an)
             | _ -> failwith ("bad spawn head " ^ hd))
        | _ -> failwith ("bad spawn " ^ s))
@@ -95,9 +100,12 @@ let str_event (e : event) : string =
       let reaped = match r.r_reaped with
         | None -> "" | Some None -> Printf.sprintf " b%d:short" h
         | Some (Some a) -> Printf.sprintf " b%d:%s" h (str_ans a) in
-      Printf.sprintf "s%d:%s:%d q%d:%s c%d:%s t%d:%s M%d:%s%s" h (string_of_z r.r_ret)
+      let sc c = Printf.sprintf "%d.%d.%d" (int_of_nat c.c_r) (int_of_nat c.c_e) (int_of_nat c.c_s) in
+      let creds = match r.r_creds with
+        | None -> "-" | Some (u, g) -> sc u ^ "/" ^ sc g in
+      Printf.sprintf "s%d:%s:%d q%d:%s c%d:%s t%d:%s M%d:%s i%d:%s a%d:%d%s" h (string_of_z r.r_ret)
         (if r.r_active then 1 else 0) h (str_table r.r_ptbl) h child h streams
-        h (hex_of_mask r.r_mask) reaped
+        h (hex_of_mask r.r_mask) h creds h (if r.r_trip then 1 else 0) reaped
   | EWait (h, a) -> Printf.sprintf "w%d:%s" (int_of_nat h) (str_ans a)
   | EReap (_, _, _) -> ""
   | EStop h -> Printf.sprintf "stop%d" (int_of_nat h)
